@@ -62,7 +62,8 @@ def declare_c19(E):
                loops={0: dict(inv=["self.out_window_size >= 0", "self.in_window_sofar >= 0", "self.out_window_size == ghost('sync_out_window_size')",
                                    "held(self.lock)"],
                               havoc_fields=["self.out_window_size", "self.closed", "self.eof_sent", "self.eof_received", "self.active", "self.in_window_sofar"],
-                              havoc_ghosts=["sync_out_window_size"],
+                              havoc_ghosts=["sync_out_window_size", "sync_closed", "sync_eof_sent", "sync_eof_received", "sync_active",
+                                            "sync_in_window_sofar"],
                               # a waiter woken because the channel closed (or EOF was sent) must stop waiting
                               exit_when="self.closed or self.eof_sent",
                               vars={"timeout": "opt[float]", "then": "float"})},
